@@ -300,7 +300,7 @@ PLANS = {
     "C17": {"claim": "The lifting of the scalar relations to (shape, numbers) is a TLA+ module; its stated consequences (reflexive, symmetric, implied by equality, monotone in the tolerance, falsified by any single perturbation beyond the tolerance, never across shapes) are model-checked on small integer shapes; on real executions every implementing type (PolyN, Poly0..8, Log, IntOfLog, IntOfLogPoly4, Segment, Piecewise) is compared with itself, with every single position (coefficient, k, u, breakpoint) perturbed below and above five tolerance pairs, and across different piece counts / lengths; TLC recomputes both relations number by number with the approx crate's scalar rule over rounded f64 operations and both argument orders must agree with it.",
             "steps": c17, "level": "model_checking", "rule": "tallies = [events judged, expected-false with equal shapes, shape mismatches, expected-true with a # b]",
             "assumptions": ["finite numbers and tolerances only", "the scalar rule is transcribed from approx 0.5.1"]},
-    "C18": {"claim": "Round trips of every serializable type (Knot, Poly0..8, Log, IntOfLog, IntOfLogPoly4, Segment, Piecewise with 0..20 segments) through serde_json (finite contents), serde_cbor (all non-NaN contents) and, in a second build with the dependency's borsh feature, borsh; contents drawn from -0.0, subnormals, +-MAX, +-MIN_POSITIVE, infinities and random bits; TLC compares the flattened bit patterns and shapes before and after. There is no state space here: the specification contributes the flattening discipline and the acceptance rule only.",
+    "C18": {"claim": "Round trips of every serializable type (Knot, Poly0..8, Log, IntOfLog, IntOfLogPoly4, Segment, Piecewise with 0..20 segments) through serde_json (finite contents), serde_cbor (all non-NaN contents), a positional non-self-describing binary format of the harness's own (vpos.rs, bincode-style) and, in a second build with the dependency's borsh feature, borsh; contents drawn from -0.0, subnormals, +-MAX, +-MIN_POSITIVE, infinities and random bits; TLC compares the flattened bit patterns and shapes before and after. There is no state space here: the specification contributes the flattening discipline and the acceptance rule only.",
             "steps": c18, "level": "exploration", "technique": "TLA+ trace validation of recorded round trips (no model checking: the property has no state space)",
             "rule": "distinct_nontrivial = round trips whose contents include a special number (tally 12); tallies = [round trips, with special numbers, with >= 2 segments, borsh]",
             "assumptions": ["serde_json built with float_roundtrip (its default float parser is not bit-exact, which is a property of that crate, not of the library)"]},
